@@ -10,6 +10,12 @@ import (
 // It follows the UTF-8 well-formedness table with range comparisons (forking on
 // them) instead of the standard library's 256-entry lookup table.
 func (ex *Exec) decodeRuneSym(bs []*Term) (r *Term, size int) {
+	r, size, _ = ex.decodeRuneSymV(bs)
+	return
+}
+
+// decodeRuneSymV additionally reports whether the decoded sequence was well-formed.
+func (ex *Exec) decodeRuneSymV(bs []*Term) (r *Term, size int, valid bool) {
 	st := ex.st
 	c8 := func(v uint64) *Term { return st.Const(8, v) }
 	in := func(b *Term, lo, hi uint64) bool {
@@ -17,7 +23,7 @@ func (ex *Exec) decodeRuneSym(bs []*Term) (r *Term, size int) {
 	}
 	errR := st.Const(32, uint64(utf8.RuneError))
 	if len(bs) == 0 {
-		return errR, 0
+		return errR, 0, false
 	}
 	allConst := true
 	for i := 0; i < len(bs) && i < 4; i++ {
@@ -31,11 +37,11 @@ func (ex *Exec) decodeRuneSym(bs []*Term) (r *Term, size int) {
 			raw = append(raw, byte(bs[i].Val))
 		}
 		rr, sz := utf8.DecodeRune(raw)
-		return st.Const(32, uint64(rr)), sz
+		return st.Const(32, uint64(rr)), sz, !(rr == utf8.RuneError && sz <= 1)
 	}
 	b0 := bs[0]
 	if ex.branch(st.Ult(b0, c8(0x80))) {
-		return st.ZExt(b0, 32), 1
+		return st.ZExt(b0, 32), 1, true
 	}
 	z := func(b *Term, maskv uint64) *Term { return st.ZExt(st.Bin(OpBAnd, b, c8(maskv)), 32) }
 	shl := func(t *Term, k uint64) *Term { return st.Bin(OpShl, t, st.Const(32, k)) }
@@ -44,12 +50,12 @@ func (ex *Exec) decodeRuneSym(bs []*Term) (r *Term, size int) {
 	switch {
 	case in(b0, 0xC2, 0xDF):
 		if !cont(1) {
-			return errR, 1
+			return errR, 1, false
 		}
-		return or(shl(z(b0, 0x1F), 6), z(bs[1], 0x3F)), 2
+		return or(shl(z(b0, 0x1F), 6), z(bs[1], 0x3F)), 2, true
 	case in(b0, 0xE0, 0xEF):
 		if len(bs) < 2 {
-			return errR, 1
+			return errR, 1, false
 		}
 		lo, hi := uint64(0x80), uint64(0xBF)
 		if ex.branch(st.Eq(b0, c8(0xE0))) {
@@ -58,12 +64,12 @@ func (ex *Exec) decodeRuneSym(bs []*Term) (r *Term, size int) {
 			hi = 0x9F
 		}
 		if !in(bs[1], lo, hi) || !cont(2) {
-			return errR, 1
+			return errR, 1, false
 		}
-		return or(or(shl(z(b0, 0x0F), 12), shl(z(bs[1], 0x3F), 6)), z(bs[2], 0x3F)), 3
+		return or(or(shl(z(b0, 0x0F), 12), shl(z(bs[1], 0x3F), 6)), z(bs[2], 0x3F)), 3, true
 	case in(b0, 0xF0, 0xF4):
 		if len(bs) < 2 {
-			return errR, 1
+			return errR, 1, false
 		}
 		lo, hi := uint64(0x80), uint64(0xBF)
 		if ex.branch(st.Eq(b0, c8(0xF0))) {
@@ -72,14 +78,31 @@ func (ex *Exec) decodeRuneSym(bs []*Term) (r *Term, size int) {
 			hi = 0x8F
 		}
 		if !in(bs[1], lo, hi) || !cont(2) || !cont(3) {
-			return errR, 1
+			return errR, 1, false
 		}
-		return or(or(or(shl(z(b0, 0x07), 18), shl(z(bs[1], 0x3F), 12)), shl(z(bs[2], 0x3F), 6)), z(bs[3], 0x3F)), 4
+		return or(or(or(shl(z(b0, 0x07), 18), shl(z(bs[1], 0x3F), 12)), shl(z(bs[2], 0x3F), 6)), z(bs[3], 0x3F)), 4, true
 	}
-	return errR, 1
+	return errR, 1, false
+}
+
+func (ex *Exec) validUTF8(bs []*Term) *Term {
+	for i := 0; i < len(bs); {
+		_, n, ok := ex.decodeRuneSymV(bs[i:])
+		if !ok {
+			return ex.st.False
+		}
+		i += n
+	}
+	return ex.st.True
 }
 
 func init() {
+	intrinsics["unicode/utf8.ValidString"] = func(ex *Exec, fn *ssa.Function, args []Value) Value {
+		return ex.validUTF8(ex.strBytes(args[0].(Str)))
+	}
+	intrinsics["unicode/utf8.Valid"] = func(ex *Exec, fn *ssa.Function, args []Value) Value {
+		return ex.validUTF8(sliceBytes(ex, args[0].(Slice)))
+	}
 	intrinsics["unicode/utf8.DecodeRuneInString"] = func(ex *Exec, fn *ssa.Function, args []Value) Value {
 		r, n := ex.decodeRuneSym(ex.strBytes(args[0].(Str)))
 		return Tuple{r, ex.st.Const(64, uint64(n))}
